@@ -1101,6 +1101,110 @@ def f(**kw):
 ''', ['f()', 'f(prefix="p")', 'f(flag=False, prefix="q")', 'f(other=1)'])
 
 
+case('helper that reads its **kw as a mapping, called with explicit keywords', '''
+class C(object):
+    def __init__(self):
+        self.res = {'r': 1, 'request': 'shadowed?'}
+    def _mk(self, req, over, **extra):
+        d = {'_route': 'me'}
+        d.update(extra)
+        d['request'] = req
+        d.update(self.res)
+        d.update(over)
+        extra['seen'] = True
+        return d, sorted(extra)
+    def a(self, req, **kw):
+        d, e = self._mk(req, kw)
+        return sorted(d.items()), e
+    def b(self, req, err, **kw):
+        d, e = self._mk(req, kw, _error=err, _route=err)
+        return sorted(d.items()), e
+def f(x):
+    c = C()
+    return c.a(x, k=1), c.b(x, 'E', k=2), c.a(x), c.b(x, None)
+''', ['f(1)', 'f("q")'])
+
+case('helper that reads its **kw as a mapping, called with **', '''
+def _mk(base, **extra):
+    d = dict(base)
+    d.update(extra)
+    extra.clear()
+    return d
+def f(m):
+    return sorted(_mk({'a': 1}, **m).items()), sorted(m)
+''', ['f({"b": 2})', 'f({})'])
+
+case('generator that is a loop head, fused with the loop consuming it', '''
+class A(object):
+    def __init__(self):
+        self.items = [1, 2, 3, 4, 5, 6, 7]
+        self.log = []
+    def _pairs(self, k, base):
+        # yields (item, params) for the items that qualify
+        for it in self.items:
+            v = it * k
+            if v % 4 == 0:
+                self.log.append(('skip', it))
+                continue
+            self.log.append(('give', it))
+            yield (it, dict(base, v=v))
+    def run(self, k, stop):
+        out = []
+        it = 'before'
+        item = None
+        for item, d in self._pairs(k, {'b': 0}):
+            self.log.append(('got', item))
+            if item == stop:
+                break
+            if item % 3 == 0:
+                continue
+            out.append((item, sorted(d.items())))
+        return out, self.log, item, it
+def f(k, stop):
+    return A().run(k, stop)
+''', ['f(2, 5)', 'f(2, 99)', 'f(1, 1)', 'f(4, 0)', 'f(1, 7)'])
+
+case('generator loop head whose argument the consuming loop re-binds: left alone', '''
+def _scaled(xs, k):
+    for x in xs:
+        yield x * k
+def f(n):
+    k = 2
+    out = []
+    for v in _scaled(range(n), k):
+        k = k + 1
+        out.append((v, k))
+    return out
+''', ['f(0)', 'f(4)'], expect_inlined=False)
+
+case('generator with code behind the yield / a break: left alone', '''
+def _g(xs, log):
+    for x in xs:
+        if x > 3:
+            break
+        yield x
+        log.append(x)
+def f(n):
+    log = []
+    out = []
+    for v in _g(range(n), log):
+        if v == 2:
+            break
+        out.append(v)
+    return out, log
+''', ['f(2)', 'f(6)'], expect_inlined=False)
+
+
+case('local closure that reads its **kw as a mapping', '''
+def f(x):
+    def build(base, **extra):
+        d = dict(base)
+        d.update(extra)
+        return sorted(d.items()), len(extra)
+    return build({'a': x}, b=x), build({'a': 1})
+''', ['f(1)', 'f("s")'])
+
+
 def run_case(name, src, calls, expect_inlined):
     tree = ast.parse(src)
     normalize._ANCHORS = set()      # nothing is an anchor in these toy modules
